@@ -81,6 +81,27 @@ fn main() {
                 let mut o = out.lock(); writeln!(o, "{}", line).unwrap();
             }
         }
+        "dir" | "twin" => {
+            // C17 families (sel / live / mix / bench) and C09 twin runs; cases cycle through the families
+            let exe = std::env::current_exe().unwrap().to_string_lossy().to_string();
+            let replay: Option<Vec<(u64, u64, bool)>> = arg(&args, "--replay").map(|p| std::fs::read_to_string(p).unwrap().lines().filter(|l| !l.trim().is_empty()).map(|l| {
+                let j: serde_json::Value = serde_json::from_str(l).unwrap();
+                (j["gen"]["seed"].as_u64().unwrap_or(seed), j["gen"]["case"].as_u64().unwrap_or(0), j["gen"]["thorough"].as_bool().unwrap_or(false))
+            }).collect());
+            let list: Vec<(u64, u64, bool)> = replay.unwrap_or_else(|| (start..cases).map(|c| (seed, c, thorough)).collect());
+            for (s, case, th) in list {
+                let mut rng = Rng::new(s.wrapping_mul(1_000_003).wrapping_add(case) ^ 0xD17);
+                let mut line = if cmd == "twin" { cvh::dir::gen_twin(&mut rng, th, &exe) } else {
+                    match case % 8 { 0 | 1 => cvh::dir::gen_sel(&mut rng, th), 2 | 3 | 4 => cvh::dir::gen_live(&mut rng, th), 5 => cvh::dir::gen_mix(&mut rng, th), _ => cvh::dir::gen_bench(case / 8 * 2 + (case % 8 - 6)) }
+                };
+                line["case"] = json!(case); line["gen"] = json!({"seed": s, "case": case, "thorough": th});
+                let mut o = out.lock(); writeln!(o, "{}", line).unwrap();
+            }
+        }
+        "twin-child" => {
+            let a: Vec<u64> = args[2..8].iter().map(|x| x.parse().unwrap()).collect();
+            println!("{}", cvh::dir::twin_trace(a[0] as usize, a[1] as usize, a[2] as usize, a[3], a[4] as usize, a[5] == 1));
+        }
         "proc" => {
             for case in start..cases {
                 let mut rng = Rng::new(seed.wrapping_mul(1_000_003).wrapping_add(case) ^ 0x9A0C);
